@@ -21,9 +21,11 @@
 package engine
 
 import (
+	"fmt"
 	"go/ast"
 	"go/token"
 	"reflect"
+	"sort"
 
 	"github.com/uber-go/gopatch/internal/data"
 )
@@ -38,6 +40,12 @@ type SliceDotsMatcher struct {
 
 	// Positions at which dots were found.
 	Dots []token.Pos // inv: len(dots) = len(sections) - 1
+
+	// TailVars[i] lists the metavariables mentioned in Sections[i:] that
+	// also occur elsewhere in the patch. Apart from what these are bound
+	// to, whether Sections[i:] match the rest of a list does not depend on
+	// what was matched before.
+	TailVars [][]string // inv: len(TailVars) = len(sections)
 }
 
 func (c *matcherCompiler) compileSliceDots(items reflect.Value, isDots func(ast.Node) bool) Matcher {
@@ -48,20 +56,36 @@ func (c *matcherCompiler) compileSliceDots(items reflect.Value, isDots func(ast.
 		sections [][]Matcher
 		current  []Matcher
 		dots     []token.Pos
+
+		// Metavariables of each section that occur elsewhere too.
+		shared     [][]string
+		currentUse = &matcherCompiler{meta: c.meta, metaUses: make(map[string]int)}
 	)
+	endSection := func() {
+		var names []string
+		for name := range currentUse.metaUses {
+			if c.metaUses == nil || c.metaUses[name] > 1 {
+				names = append(names, name)
+			}
+			delete(currentUse.metaUses, name)
+		}
+		sections = append(sections, current)
+		shared = append(shared, names)
+		current = nil
+	}
 	for i := 0; i < items.Len(); i++ {
 		item := items.Index(i)
 		if n, ok := item.Interface().(ast.Node); ok && isDots(n) {
 			dotPos := n.Pos()
 			c.dots = append(c.dots, dotPos)
 			dots = append(dots, dotPos)
-			sections = append(sections, current)
-			current = nil
+			endSection()
 		} else {
 			current = append(current, c.compile(item))
+			currentUse.countMetavars(item)
 		}
 	}
-	sections = append(sections, current)
+	endSection()
 
 	// Optimization: If there are no "..."s, we can use the faster slice
 	// matcher.
@@ -69,7 +93,21 @@ func (c *matcherCompiler) compileSliceDots(items reflect.Value, isDots func(ast.
 		return SliceMatcher{Items: sections[0]}
 	}
 
-	return SliceDotsMatcher{Sections: sections, Dots: dots}
+	tailVars := make([][]string, len(sections))
+	seen := make(map[string]struct{})
+	var tail []string
+	for i := len(sections) - 1; i >= 0; i-- {
+		for _, name := range shared[i] {
+			if _, ok := seen[name]; !ok {
+				seen[name] = struct{}{}
+				tail = append(tail, name)
+			}
+		}
+		sort.Strings(tail)
+		tailVars[i] = append([]string(nil), tail...)
+	}
+
+	return SliceDotsMatcher{Sections: sections, Dots: dots, TailVars: tailVars}
 }
 
 // Match matches
@@ -85,7 +123,28 @@ func (m SliceDotsMatcher) Match(got reflect.Value, d data.Data, r Region) (data.
 		return d, false
 	}
 
-	return m.matchSections(1, gotItems, d, r, idx)
+	return m.matchSections(1, gotItems, d, r, idx, make(map[sectionsState]struct{}))
+}
+
+// sectionsState identifies a call to matchSections by everything its result
+// depends on: the sections left, the items left, and what the metavariables
+// that the sections left share with the rest of the patch are bound to.
+type sectionsState struct {
+	Section, Item int
+	Bound         string
+}
+
+func (m SliceDotsMatcher) state(i, idx int, d data.Data) sectionsState {
+	s := sectionsState{Section: i, Item: idx}
+	for _, name := range m.TailVars[i] {
+		var md metavarData
+		if data.Lookup(d, metavarKey(name), &md) {
+			s.Bound += fmt.Sprintf("%v:%v-%v;", name, md.Pos, md.End)
+		} else {
+			s.Bound += name + ":;"
+		}
+	}
+	return s
 }
 
 // matchSections matches Sections[i:] against got[idx:].
@@ -94,9 +153,18 @@ func (m SliceDotsMatcher) Match(got reflect.Value, d data.Data, r Region) (data.
 // rest of the list match: a position at which the section matches is
 // abandoned in favor of a later one if the remaining sections cannot be
 // matched after it.
-func (m SliceDotsMatcher) matchSections(i int, got []reflect.Value, d data.Data, r Region, idx int) (data.Data, bool) {
+//
+// failed holds the states from which the rest of the list is known not to
+// match. Without it the search takes time exponential in the number of "..."
+// for lists of similar items.
+func (m SliceDotsMatcher) matchSections(i int, got []reflect.Value, d data.Data, r Region, idx int, failed map[sectionsState]struct{}) (data.Data, bool) {
 	if i == len(m.Sections) {
 		return d, idx == len(got)
+	}
+
+	state := m.state(i, idx, d)
+	if _, ok := failed[state]; ok {
+		return d, false
 	}
 
 	dots, want := m.Dots[i-1], m.Sections[i]
@@ -114,11 +182,12 @@ func (m SliceDotsMatcher) matchSections(i int, got []reflect.Value, d data.Data,
 			continue
 		}
 
-		if newD, ok := m.matchSections(i+1, got, newD, r, newIdx); ok {
+		if newD, ok := m.matchSections(i+1, got, newD, r, newIdx, failed); ok {
 			return newD, true
 		}
 	}
 
+	failed[state] = struct{}{}
 	return d, false
 }
 
